@@ -367,6 +367,35 @@ def run(ctx):
                           "engine: %s (%s)" % (v.get("kind"), json.dumps(r.get("case"))[:200]))
     if rc != 0 or not estats:
         ctx.violation({"layer": "engine harness", "output": out[-1500:]}, "the engine harness failed", no_input=True)
+    # the oracle for the contract's observations is the Coq model Contract/V1Resume.v (engine_scenario)
+    erows = [r for r in ers if "eng" in r]
+    if okx and erows:
+        answers = run_model(runner, [r["eng"] for r in erows], 2)
+        ecmp = 0
+        for r, ans in zip(erows, answers):
+            if r.get("out") != "success":
+                continue        # reported by the harness itself (engine-scenario-did-not-complete)
+            exp = None
+            if ";| " in ans:
+                obs, fin = ans.split(";| ")
+                b = b""
+                for o in obs.split(";"):
+                    w, rc1, b1, id2, rc2, b2 = o.split(",")
+                    b += int(w).to_bytes(8, "little") + int(rc1).to_bytes(4, "little") + bytes.fromhex(b1)
+                    b += int(id2).to_bytes(8, "little") + int(rc2).to_bytes(4, "little") + bytes.fromhex(b2)
+                exp = (b + bytes.fromhex("5a5a5a5a")).hex()
+            ecmp += 1
+            if exp is None or exp != r["rv"] or fin.strip() != (r.get("final") or ""):
+                neng += 1
+                if neng <= 6:
+                    ctx.violation({"layer": "v1 engine vs Contract/V1Resume.v", "case": r.get("case"), "scenario": r["eng"],
+                                   "model_return_value": exp, "impl_return_value": r["rv"], "model_final_entry": ans.split(";| ")[-1] if exp else ans[:200],
+                                   "impl_final_entry": r.get("final"),
+                                   "layout": "per resume: response word u64, rc+4 bytes read through the pre-interrupt handle, id of a fresh lookup u64, rc+4 bytes read through it; then the grown-memory mark",
+                                   "how_to_replay": ".cache/target/release/c13 engine %s %s" % (ctx.seed, ne)},
+                                  "engine: observations after resume_receive differ from the model (response word / handle invalidation / entry contents): %s" % r["eng"][:160])
+        estats["scenarios_compared_with_model"] = ecmp
+        ctx.cov["traces_validated_against_impl"] += ecmp
     ctx.notes["engine"] = estats
     ctx.log("engine: %s" % json.dumps(estats))
 
